@@ -433,18 +433,25 @@ CORPUS = [
                            dict(op="call", f=1, args=[["var", 0, [0]]], kwargs={"kw0": ["var", 0, [1]], "kw1": ["var", 1, ["k0"]]}, active=None),
                            dict(op="call", f=1, args=[], kwargs={"kw0": ["var", 1, [["t", 1]]]}, active=None)],
                     ret=dict(shape="tuple", items=[["var", 2, []], ["var", 3, []]]), subs=[], fails=[], maxc=2, is_async=False)]),
+    # inner(x, y=10) called with a CONSTANT first argument and the default omitted
+    dict(name="p", params=[], funs=[_fun(0), _fun(1)],
+         stmts=[dict(op="sub", d=0, args=[["const", 5, True]], active=None)],
+         ret=dict(shape="single", items=[["var", 0, []]]), fails=[], maxc=2, is_async=False,
+         subs=[_sub("p_s0", [_P("a0", None), _P("z0", [10, True]), _P("y1", [11, False])], 10,
+                    [dict(op="call", f=0, args=[["param", 0], ["param", 1], ["param", 2]], kwargs={}, active=None)],
+                    dict(shape="single", items=[["var", 0, []]]))]),
     # inner(x, y=10, z=100) called as inner(a): y and z keep THEIR defaults
     dict(name="p", params=[_P("a0", None)], funs=[_fun(0), _fun(1)],
          stmts=[dict(op="sub", d=0, args=[["param", 0]], active=None), dict(op="call", f=0, args=[["var", 0, [0]], ["var", 0, [1]]], kwargs={}, active=None)],
          ret=dict(shape="tuple", items=[["var", 0, [0]], ["var", 0, [1]], ["var", 1, []]]), fails=[], maxc=2, is_async=False,
-         subs=[_sub("p_s0", [_P("a0", None), _P("d0", [10, True]), _P("d1", [100, False])], 10,
+         subs=[_sub("p_s0", [_P("a0", None), _P("z0", [10, True]), _P("y1", [100, False])], 10,
                     [dict(op="call", f=0, args=[["param", 0], ["param", 1], ["param", 2]], kwargs={}, active=None), dict(op="call", f=1, args=[["param", 2], ["param", 1]], kwargs={}, active=None)],
                     dict(shape="tuple", items=[["var", 0, []], ["var", 1, []]]))]),
     # inner(x, w, y=1, z=2, t=3) called with three arguments: z and t keep theirs; at depth 2 through a middle DAG
     dict(name="p", params=[_P("a0", None), _P("d0", [7, True])], funs=[_fun(0), _fun(1)],
          stmts=[dict(op="call", f=0, args=[["param", 0]], kwargs={}, active=None), dict(op="sub", d=0, args=[["var", 0, []], ["param", 1], ["const", 5, True]], active=None)],
          ret=dict(shape="list", items=[["var", 1, [0]], ["var", 1, [1]]]), fails=[], maxc=3, is_async=True,
-         subs=[_sub("p_s0", [_P("a0", None), _P("a1", None), _P("d0", [1, True]), _P("d1", [2, False]), _P("d2", [3, True])], 10,
+         subs=[_sub("p_s0", [_P("a0", None), _P("a1", None), _P("z0", [1, True]), _P("y1", [2, False]), _P("x2", [3, True])], 10,
                     [dict(op="call", f=0, args=[["param", 0], ["param", 1], ["param", 2], ["param", 3], ["param", 4]], kwargs={}, active=None),
                      dict(op="call", f=1, args=[["param", 4], ["param", 3]], kwargs={"kw0": ["param", 2]}, active=None)],
                     dict(shape="tuple", items=[["var", 0, []], ["var", 1, []]]), qualname="mk0.<locals>.p_s0")]),
